@@ -4,8 +4,10 @@ M9 (engine part) — the engine entry point: `workflowEngine.Parse` / `RunWorkfl
 (cmd/arcaflow/main.go).  Core Lean only.
 
 What is modelled statement by statement: the default file name, the lookup of the workflow file in the cache, the
-recursive discovery of sub-workflow files (a fresh `NewFileCacheUsingContext(rootDir, paths)` + `LoadContext` per
-workflow, the chain of parent files for self references, the growing `flowCaches` list with its `nil` entries),
+recursive discovery of sub-workflow files (the files the caller supplied are taken from the caller's cache by key and
+followed first, a fresh `NewFileCacheUsingContext(rootDir, paths)` + `LoadContext` per workflow for the remaining paths,
+the chain of parent files — keys of supplied files, absolute paths of loaded ones — for self references, the growing
+`flowCaches` list with its `nil` entries), the check for reference cycles in the merged contents (`checkSubworkflowCycles`),
 `MergeFileCaches` (nil skipped, last writer wins per key, root directories compared with `sameDirectory`), the version check, stage 6 of
 `Prepare` (explicit output schema table vs inferred schema: error flag = `outputID == "error"`), `Run` (input
 decoding, `Execute`, look-up of the output schema, error flag) and every error return with `("", nil, true, err)`.
@@ -211,33 +213,81 @@ def visitStep (env : Env P I D)
       | .error e => .error e
       | .ok flowCache => .ok (caches ++ [flowCache])
 
-/-- `subworkflowCache(wf, rootDir, converter, flowCaches, parentFiles)`; the files of the step cache are visited in
-    list order (Go: map order — every visit order gives caches that agree on shared keys, see `loaded_caches_agree`) -/
+/-- the body of `for path := range stepWorkflowPaths` in the `supplied != nil` part of `subworkflowCache`: a path the
+    caller's cache has no entry for is left to the loader (`continue`); a supplied file is checked against the chain BY
+    ITS KEY, converted and followed; only a non-nil result is appended (`if flowCache != nil`) -/
+def visitSupplied (env : Env P I D) (supplied : FileCache)
+    (recur : Wf → List (Option FileCache) → List String → Except Err (Option FileCache)) (parents : List String)
+    (acc : Except Err (List (Option FileCache))) (path : String) : Except Err (List (Option FileCache)) :=
+  match acc with
+  | .error e => .error e
+  | .ok caches =>
+    match getFile path supplied.files with
+    | none => .ok caches
+    | some cf =>
+      if parents.contains path then .error .selfReference else
+      match env.fromYAML cf.content with
+      | none => .error .yaml
+      | some subwf =>
+        match recur subwf caches (parents ++ [path]) with
+        | .error e => .error e
+        | .ok none => .ok caches
+        | .ok (some flowCache) => .ok (caches ++ [some flowCache])
+
+/-- `if supplied != nil { for path := range stepWorkflowPaths { … } }`; `none` = a nil `supplied` -/
+def suppliedLoop (env : Env P I D) (supplied : Option FileCache)
+    (recur : Wf → List (Option FileCache) → List String → Except Err (Option FileCache)) (parents : List String)
+    (flowCaches : List (Option FileCache)) (refs : List String) : Except Err (List (Option FileCache)) :=
+  match supplied with
+  | none => .ok flowCaches
+  | some sup => refs.foldl (visitSupplied env sup recur parents) (.ok flowCaches)
+
+/-- what the `delete(stepWorkflowPaths, path)` of that loop leave in the table: the paths the caller did not supply -/
+def remaining (supplied : Option FileCache) (refs : List String) : List String :=
+  match supplied with
+  | none => refs
+  | some sup => refs.filter (fun p => (getFile p sup.files).isNone)
+
+/-- `subworkflowCache(wf, rootDir, converter, flowCaches, parentFiles, supplied)`; the paths and the files of the step
+    cache are visited in list order (Go: map order — every visit order gives caches that agree on shared keys, see
+    `loaded_caches_agree`).  `supplied = none` is the exported `SubworkflowCache`. -/
 def subworkflowCache (env : Env P I D) : Nat → Wf → String → List (Option FileCache) → List String →
-    Except Err (Option FileCache)
-  | 0, _, _, _, _ => .error .tooDeep
-  | fuel + 1, wf, rootDir, flowCaches, parents =>
-    if wf.refs.isEmpty then .ok none else
-    match loadCache env rootDir wf.refs with
+    Option FileCache → Except Err (Option FileCache)
+  | 0, _, _, _, _, _ => .error .tooDeep
+  | fuel + 1, wf, rootDir, flowCaches, parents, supplied =>
+    match suppliedLoop env supplied (fun w c p => subworkflowCache env fuel w rootDir c p supplied) parents flowCaches
+        wf.refs with
     | .error e => .error e
-    | .ok stepCache =>
-      match stepCache.files.foldl
-          (visitStep env (fun w c p => subworkflowCache env fuel w rootDir c p) parents) (.ok flowCaches) with
-      | .error e => .error e
-      | .ok caches =>
-        match mergeFileCaches env.abs (caches ++ [some stepCache]) with
+    | .ok flowCaches =>
+      if (remaining supplied wf.refs).isEmpty then
+        if flowCaches.isEmpty then .ok none else
+        match mergeFileCaches env.abs flowCaches with
         | .error e => .error e
         | .ok m => .ok (some m)
+      else
+      match loadCache env rootDir (remaining supplied wf.refs) with
+      | .error e => .error e
+      | .ok stepCache =>
+        match stepCache.files.foldl
+            (visitStep env (fun w c p => subworkflowCache env fuel w rootDir c p supplied) parents) (.ok flowCaches) with
+        | .error e => .error e
+        | .ok caches =>
+          match mergeFileCaches env.abs (caches ++ [some stepCache]) with
+          | .error e => .error e
+          | .ok m => .ok (some m)
 
-/-- the file part of `Parse`: workflow file, converter, sub-workflow discovery, merge with the caller's cache -/
-def parseFiles (env : Env P I D) (fuel : Nat) (files : FileCache) (name : String) : Except Err (Wf × FileCache) :=
+/-- the file part of `Parse`: workflow file, converter, sub-workflow discovery, merge with the caller's cache.
+    `passSupplied = true` is the code (`subworkflowCache(…, nil, files)`); `false` is the same code handing `nil` to the
+    discovery, as `Parse` did before it passed the caller's cache on (kept for `memory_cache_needed_disk`) -/
+def parseFilesWith (env : Env P I D) (passSupplied : Bool) (fuel : Nat) (files : FileCache) (name : String) :
+    Except Err (Wf × FileCache) :=
   match getFile (defaultName name) files.files with
   | none => .error .noWorkflowFile
   | some cf =>
     match env.fromYAML cf.content with
     | none => .error .yaml
     | some wf =>
-      match subworkflowCache env fuel wf files.rootDir [] [] with
+      match subworkflowCache env fuel wf files.rootDir [] [] (if passSupplied then some files else none) with
       | .error e => .error e
       | .ok none => .ok (wf, files)
       | .ok (some sc) =>
@@ -245,22 +295,56 @@ def parseFiles (env : Env P I D) (fuel : Nat) (files : FileCache) (name : String
         | .error e => .error e
         | .ok m => .ok (wf, m)
 
+/-- the file part of `Parse` -/
+abbrev parseFiles (env : Env P I D) (fuel : Nat) (files : FileCache) (name : String) : Except Err (Wf × FileCache) :=
+  parseFilesWith env true fuel files name
+
+/-- the body of `for _, path := range StepWorkflowPaths(wf)` in `checkSubworkflowCycles`; `recur` is the recursive call -/
+def visitRef (fromYAML : String → Option Wf) (contents : List (String × String))
+    (recur : Wf → List String → Except Err Unit) (parents : List String)
+    (acc : Except Err Unit) (path : String) : Except Err Unit :=
+  match acc with
+  | .error e => .error e
+  | .ok () =>
+    if parents.contains path then .error .selfReference else
+    match lookup path contents with
+    | none => .ok ()                      -- a missing file is reported when the workflow is prepared
+    | some content =>
+      match fromYAML content with
+      | none => .error .yaml
+      | some subwf => recur subwf (parents ++ [path])
+
+/-- `checkSubworkflowCycles(wf, contents, converter, parentFiles)`: the references are followed BY KEY in the contents
+    that are going to be used; paths visited in list order (Go: map order; whether an error is returned does not
+    depend on it) -/
+def checkCycles (fromYAML : String → Option Wf) : Nat → Wf → List (String × String) → List String → Except Err Unit
+  | 0, _, _, _ => .error .tooDeep
+  | fuel + 1, wf, contents, parents =>
+    wf.refs.foldl (visitRef fromYAML contents (fun w p => checkCycles fromYAML fuel w contents p) parents) (.ok ())
+
 /-- `Executor.Prepare(wf, context)` as far as the entry point depends on it -/
 def prepare (env : Env P I D) (wf : Wf) (ctx : List (String × String)) : Except Err P :=
   match env.prepareSteps wf ctx with
   | none => .error .prepare
   | some p => if schemaComplete wf then .ok p else .error .missingOutputSchema
 
-/-- `workflowEngine.Parse` -/
-def parse (env : Env P I D) (fuel : Nat) (files : FileCache) (name : String) : Except Err (Wf × P) :=
-  match parseFiles env fuel files name with
+/-- `workflowEngine.Parse`; `passSupplied`: see `parseFilesWith` -/
+def parseWith (env : Env P I D) (passSupplied : Bool) (fuel : Nat) (files : FileCache) (name : String) : Except Err (Wf × P) :=
+  match parseFilesWith env passSupplied fuel files name with
   | .error e => .error e
   | .ok (wf, m) =>
-    if supportedVersion wf.version then
-      match prepare env wf m.contents with
-      | .error e => .error e
-      | .ok p => .ok (wf, p)
-    else .error .unsupportedVersion
+    match checkCycles env.fromYAML fuel wf m.contents [] with
+    | .error e => .error e
+    | .ok () =>
+      if supportedVersion wf.version then
+        match prepare env wf m.contents with
+        | .error e => .error e
+        | .ok p => .ok (wf, p)
+      else .error .unsupportedVersion
+
+/-- `workflowEngine.Parse` -/
+abbrev parse (env : Env P I D) (fuel : Nat) (files : FileCache) (name : String) : Except Err (Wf × P) :=
+  parseWith env true fuel files name
 
 /-- `engineWorkflow.Run` -/
 def run (env : Env P I D) (wf : Wf) (p : P) (input : String) : Result D :=
